@@ -2,6 +2,7 @@
 C17 — placeholders: the scanner on `${type:name}`, resolution, and the cast by target kind.
 -/
 import Pandora.Proofs.C17
+import Pandora.Proofs.C17Repl
 import Pandora.Spec.C17
 
 namespace Pandora.Proofs.C17
@@ -96,8 +97,13 @@ theorem resolve_placeholder (env : Env) (ty name : Str) (ht : PlainType ty) (hn 
       | some t => .text t true := by
   unfold resolve
   rw [scan_placeholder ty name ht hn]
-  simp only [hasTag, render, loneTag, List.filter]
-  cases resolveTag env (placeholder ty name) ty name <;> simp
+  simp only [hasTag, renderSeq, loneTag, List.filter]
+  cases resolveTag env (placeholder ty name) ty name with
+  | none => simp
+  | some v =>
+    have : replaceAll (placeholder ty name) (placeholder ty name) v = v :=
+      replaceAll_self _ _ (by simp [placeholder])
+    simp [this]
 
 theorem plainType_env : PlainType "env".toList := by
   refine ⟨⟨by decide, ?_⟩, ?_⟩ <;> decide
